@@ -39,6 +39,13 @@ def obligations(tier):
         if name == "aroon":
             n = w + 2
         obs.append(Ob(f"{spec_name(('ind', name, kw))}/definition-within-rounding-slack/n={n}", dict(spec=["ind", name, kw], n=n, tf=None, part="definition", k=k), INV, weight=20, budget_s=300))
+    # composites whose helper series keep THEIR OWN (default, 4-decimal) rounding whatever the parent's round_value is:
+    # stored == round_rv(definition) within 0.5*10^-rv for the parent's rounding + a few helper roundings at 4 decimals
+    # (not Supertrend: its direction flips are discontinuous in the rounded bands; not ATR/EMA/...: a top-level recursive
+    # indicator legitimately feeds its own coarsely rounded reading back)
+    for name, kw, w in ((("KC", dict(period=2), 2), ("BBANDS", dict(period=2), 2)) if tier == "quick" else (("KC", dict(period=2), 2), ("BBANDS", dict(period=2), 2), ("MACD", dict(fast_period=2, slow_period=3, signal_period=2), 3))):
+        for rv in ((1, 2) if tier == "quick" else (0, 1, 2, 3)):
+            obs.append(Ob(f"{spec_name(('ind', name, kw))}/round_value={rv}/definition-within-rounding-slack", dict(spec=["ind", name, kw], n=w + 3, tf=None, part="definition-rv", rv=rv), INV, weight=30, budget_s=300))
     # every numeric reading is rounded to the indicator's round_value decimals: also for other settings than the default
     for name, kw, w in (("SMA", dict(period=2), 1), ("MACD", dict(fast_period=2, slow_period=3, signal_period=2), 3), ("BBANDS", dict(period=2), 2), ("ATR", dict(period=2), 2), ("VWAP", dict(), 0)):
         for rv in (0, 1, 2, 6):
@@ -84,6 +91,21 @@ def run(ctx, P):
             if part != "range":
                 R("stored-value-is-rounded", is_rounded(ctx, x, rv), f"candle {i} field {f}: {x!r}")
     if part == "rounded":
+        return
+    if part == "definition-rv":
+        from harness.defs import expected
+        ref = expected(ctx, name, kw, cs)
+        h_rv = 0.5 * 10 ** (-rv) + 1e-9
+        helper = 40 * H      # generous allowance for the 4-decimal helper series (EMA/ATR feedback, 2x multipliers); far below 0.5*10^-rv for rv <= 2
+        for i, (g, r) in enumerate(zip(out, ref)):
+            pairs = [(f, g.get(f) if isinstance(g, dict) else None, r[f]) for f in r] if isinstance(r, dict) else [(None, g, r)]
+            for f, gv, rv_ in pairs:
+                if isinstance(rv_, tuple) or f in ("direction",):
+                    continue
+                if rv_ is None or gv is None:
+                    R(f"definition(rv={rv}):none-pattern[{f}]", rv_ is None and gv is None, f"candle {i}: {gv!r} vs {rv_!r}")
+                else:
+                    ctx.close(f"{name}:stored==round_{rv}(definition) within parent rounding + helper slack[{f}]", gv, rv_, h_rv + helper)
         return
     if part == "definition":
         from harness.defs import expected
